@@ -104,7 +104,7 @@ func e1Config(g *core.Stream, variant int) string {
 
 var (
 	e1Nicks   = []string{"alice", "Alice", "bob", "b[ob]", "b{ob}", "carol", "dave", "eve", "x\\y", "x|y", "mallory", "trent"}
-	e1BadNick = []string{"", "1bad", "NickServ", "chanserv", "averyveryveryverylongnicknamethatexceeds30", "a b", "é", "a,b"}
+	e1BadNick = []string{"", "1bad", "NickServ", "chanserv", "averyveryveryverylongnicknamethatexceeds30", "a b", "é", "a,b", strings.Repeat("n", 480), "x" + strings.Repeat("a", 500)}
 	e1Chans   = []string{"#a", "#A", "#b", "#Chaos", "#chaos", "#k", "#x"}
 	e1BadChan = []string{"", "#", "&loc", "a", "#a b", "#toolongchannelname-0123456789012345678901234567890", "#a\x07"}
 	e1Keys    = []string{"k1", "k2", "", "k1 "}
@@ -568,6 +568,51 @@ func (e1Engine) Generate(seed uint64, prop, tier string) (json.RawMessage, error
 		add(e1Step{K: "line", S: a, Data: "PRIVMSG " + c + " :who is listening?"})
 		add(e1Step{K: "line", S: a, Data: "TOPIC " + c + " :new topic"})
 	}
+	// snippet (C02): the schedule compaction bugs need - a persisted snapshot, more (non-idempotent) traffic, a
+	// snapshot whose Persist fails or is skipped, a Restore of the older one on the same FSM or of another
+	// node's, another snapshot, a restart
+	snapSaga := func() {
+		if sc.Nodes < 2 {
+			return
+		}
+		n := g.Range(1, sc.Nodes-1)
+		traffic := func() {
+			add(e1Step{K: "create"})
+			ls := nsess
+			nsess++
+			add(e1Step{K: "line", S: ls, Data: "NICK " + g.Pick(e1Nicks)})
+			add(e1Step{K: "line", S: ls, Data: "USER saga 0 * :Saga"})
+			add(e1Step{K: "line", S: ls, Data: "JOIN " + g.Pick(e1Chans)})
+			for k := 0; k < g.Range(0, 3); k++ {
+				if s := g.Intn(nsess); s != svc {
+					l, c := clientLine(g)
+					add(e1Step{K: "line", S: s, Data: l, Captcha: c})
+				}
+			}
+		}
+		add(e1Step{K: "apply", N: n, Cnt: 1000})
+		add(e1Step{K: "snap", N: n, Frac: g.Pick2(100, 101, 60)})
+		traffic()
+		add(e1Step{K: "apply", N: n, Cnt: 1000})
+		st := e1Step{K: "snap", N: n, Frac: g.Pick2(100, 101, 80)}
+		switch g.Intn(3) {
+		case 0:
+			st.Fail = g.Range(1, 400)
+		case 1:
+			st.Skip = true
+		}
+		add(st)
+		switch g.Intn(3) {
+		case 0:
+			add(e1Step{K: "selfrestore", N: n})
+		case 1:
+			add(e1Step{K: "install", N: n, From: g.Range(1, sc.Nodes-1)})
+		}
+		traffic()
+		add(e1Step{K: "apply", N: n, Cnt: 1000})
+		add(e1Step{K: "snap", N: n, Frac: g.Pick2(100, 101, 50)})
+		add(e1Step{K: "restart", N: n})
+	}
 	// snippet: several members on one channel, a membership-changing event, then channel and private traffic
 	chatter := func() {
 		if nsess < 3 {
@@ -621,6 +666,8 @@ func (e1Engine) Generate(seed uint64, prop, tier string) (json.RawMessage, error
 			captchaGate()
 		case r >= 571 && r < 577:
 			botLeaves()
+		case prop == "C02" && faulty && r >= 577 && r < 592:
+			snapSaga()
 		case r >= 500 && r < 540:
 			chatter()
 		case r >= 540 && r < 555:
